@@ -36,6 +36,10 @@ DIVERGING_FOREIGN = {"unwrap", "expect", "unwrap_err", "expect_err", "index", "i
                      "div_ceil", "next_power_of_two", "pow", "ilog2", "log2", "shl", "shr"}
 
 # foreign callees whose result describes the shape of their receiver, not its elements
+# foreign trait methods whose *result* (a Result<(), _>) does not depend on the value handed to them:
+# serializing into an in-memory writer. Their effect on the writer argument is still modelled.
+RESULT_INDEPENDENT_TRAITS = {"ark_serialize::CanonicalSerialize"}
+
 SHAPE_FOREIGN = {"len", "is_empty", "is_some", "is_none", "is_ok", "is_err", "capacity"}
 
 DATA, CTRL, ALIAS = 0, 1, 2
@@ -349,7 +353,7 @@ class Graph:
         dstp = t["dst"]
         d = (bid, dstp["l"])
         dst_ty = self._place_ty(b, dstp)
-        self.edge(("CALLRES", bid, i), Edge(d, DATA, FRESH, None, dst_ty, site=site))
+        self.edge(("CALLRES", bid, i), Edge(d, DATA, "callres", None, dst_ty, site=site))
         for l in place_locals(dstp)[1:]:
             self.edge((bid, l), Edge(d, DATA, COMPUTE, None, dst_ty))
         self._ctrl_into(b, ctrl_ops, ctl, d, dst_ty)
@@ -411,8 +415,9 @@ class Graph:
         else:
             name = last_seg(t.get("callee") or "")
             opk = SHAPE if name in SHAPE_FOREIGN else "foreign"
-            for a in args:
-                self._read_op(b, a, d, DATA, opk, dst_ty, site)
+            if t.get("callee_trait") not in RESULT_INDEPENDENT_TRAITS:
+                for a in args:
+                    self._read_op(b, a, d, DATA, opk, dst_ty, site)
             muts = [l for l in arg_loc if l is not None and self._mutb(b, l)]
             for m in muts:
                 mty = self.lty(b, m)
@@ -516,6 +521,11 @@ class Graph:
             return [dty]
         if op == FRESH or op == COMPUTE:
             return [dty]
+        if op == "callres":
+            # source: the result of a call; with a payload type only the elements of that type inside it
+            if ty is None or dty is None or strip_refs(dty) == strip_refs(ty):
+                return [dty]
+            return [ty] if may_contain(dty, ty) else []
         if op == SHAPE:
             return [dty] if whole else []
         if op in (MOVE, "hof"):
@@ -579,7 +589,7 @@ class Graph:
 
     def reach(self, starts, cut=None, want=None, typed=True, kinds=None, context=True):
         """forward reachability over typed, call-string-qualified states.
-        starts: nodes, or ("STATE", node, ty) triples. cut(a, b, kind) -> True drops the edge.
+        starts: nodes, or ("STATE", node, ty) triples. cut(node, edge) -> True drops the edge.
         Returns parent map over states (node, ty, stack)."""
         parent = {}
         dq = deque()
@@ -601,7 +611,7 @@ class Graph:
             for e in self.fwd.get(n, ()):
                 if kinds is not None and e.kind not in kinds:
                     continue
-                if cut is not None and cut(n, e.dst, e.kind):
+                if cut is not None and cut(n, e):
                     continue
                 nstack = self._stack_step(stack, e.cs) if context else ()
                 if nstack is None:
